@@ -39,7 +39,7 @@ def judgeLine (line : String) : String :=
       | "C10" => judgeC10 op
       | "C12" => (if op == "hist" then judgeMmapHist else if op == "srv" then judgeMmapSrv else throw s!"unknown op {op}")
       | "C11" => judgeC11 op
-      | "C08" => judgeC08 op
+      | "C08" => (if op == "oapi" then judgeOapi "C08" else judgeC08 op)
       | "C04" => judgeC04 op
       | "C06" => judgeC06 op
       | "C07" => judgeC07 op
